@@ -176,6 +176,12 @@ func classifyDeath(timedOut bool, ws syscall.WaitStatus, exitErr error, stderr s
 
 func (p *parent) runChild(mode string, inputs []Input, dump bool) childOut {
 	atomic.AddInt64(&p.children, 1)
+	isHeavy := false
+	for _, in := range inputs {
+		if heavy(in.Kind) {
+			isHeavy = true
+		}
+	}
 	co := childOut{res: map[int]*Res{}, dumps: map[int]map[int]string{}}
 	args := []string{"worker"}
 	mult := time.Duration(1)
@@ -236,6 +242,9 @@ func (p *parent) runChild(mode string, inputs []Input, dump bool) childOut {
 	ready := false
 	done := 0
 	cpuLimit := p.timeout * mult
+	if isHeavy {
+		cpuLimit *= heavyFactor // deep/big inputs: polynomial but slow steps are expected
+	}
 	wallLimit := 8 * cpuLimit
 	lastWall := time.Now()
 	lastCPU := time.Duration(0)
@@ -451,6 +460,8 @@ func sizeBucket(n int) string {
 	}
 	return "g:>=64K"
 }
+
+const heavyFactor = 4
 
 func heavy(kind string) bool { return strings.HasPrefix(kind, "deep-") || kind == "big" }
 
@@ -753,6 +764,7 @@ func parentMain(argv []string) int {
 		"children":             atomic.LoadInt64(&p.children),
 		"workers":              workers,
 		"per_input_cpu_limit_s": int(p.timeout / time.Second),
+		"heavy_input_cpu_limit_factor": heavyFactor,
 		"cpu_s_mode_A_total":   float64(cpuTotal) / 1000,
 		"mem_cap_bytes":        int64(memCapBytes),
 		"crashes":              crashes,
